@@ -12,6 +12,7 @@ Generated files (rewritten only when their content changes, so `make` stays incr
   GenDtype.v     index dtype selection thresholds of pyflwdir.from_array
   GenFormulas.v  integer index formulas + unit factors + projected distance/area formulas
   GenCodec.v     from_array / to_array of core_d8 / core_ldd / core_nextxy (tools/gen_codec.py)
+  GenUpscale.v   the non-iterative upscaling kernels of upscale.py (tools/gen_upscale.py)
   GenFingerprints.v is not generated; fingerprints go to generated/fingerprints.json
 """
 import ast, hashlib, json, os, sys
@@ -384,4 +385,5 @@ if __name__ == "__main__":
     import gen_more  # noqa: F401  (registers more generators)
     import gen_loops  # noqa: F401
     import gen_codec  # noqa: F401  (raster codecs -> GenCodec.v)
+    import gen_upscale  # noqa: F401  (non-iterative upscaling kernels -> GenUpscale.v)
     sys.exit(main())
